@@ -7,6 +7,7 @@
    what they need from the parser's callees is stated as explicit hypotheses at each theorem:
      c_start PC line = SlOk info     the start-line callee accepts the composed line (start-line round trip: C18, URI: C10)
      c_hdrs PC .. = HOk              the header-semantics hooks accept the delivered collection
+     connect_response PC k line = false   the client machine is not answering a CONNECT request (it would drop the framing fields)
      decodes PC h wire content       the decoder callee turns the octets ON THE WIRE into the content (see C04_what_is_decoded)
    Content-Length framing rests on the exact-delivery theorem of C02 (Proofs/ParserWf.v). *)
 From Coq Require Import ZArith.
@@ -41,7 +42,7 @@ Theorem C04_parse_content_length : forall (C : ccallees) (PC : callees) (k : kin
   forall line info h body,
   no_lf line = true -> c_start PC line = SlOk info -> hdrs_ok h = true -> no_list_fields h = true -> h <> [] ->
   hget H_TE h = None -> hget H_CE h = None -> hget H_CL h = Some (dec_print (Composer.blen body)) ->
-  host_ok k info h = true -> c_hdrs PC (p11 info) (delivered_hdrs h) = HOk ->
+  host_ok k info h = true -> c_hdrs PC (p11 info) (delivered_hdrs h) = HOk -> connect_response PC k line = false ->
   N.of_nat (List.length (dec_of_N (N.of_nat (List.length body)))) <= INT_MAX_STR_DIGITS -> body_allowed k info body = true ->
   parse reference PC k init (line ++ CRLF ++ hcompose C h ++ body) =
     (init, [ {| m_line := line; m_hdrs := delivered_hdrs h; m_body := body |} ], None).
@@ -51,7 +52,7 @@ Theorem C04_parse_no_body : forall (C : ccallees) (PC : callees) (k : kind), lsp
   forall line info h,
   no_lf line = true -> c_start PC line = SlOk info -> hdrs_ok h = true -> no_list_fields h = true -> h <> [] ->
   hget H_TE h = None -> hget H_CE h = None -> hget H_CL h = None ->
-  host_ok k info h = true -> c_hdrs PC (p11 info) (delivered_hdrs h) = HOk ->
+  host_ok k info h = true -> c_hdrs PC (p11 info) (delivered_hdrs h) = HOk -> connect_response PC k line = false ->
   parse reference PC k init (line ++ CRLF ++ hcompose C h) =
     (init, [ {| m_line := line; m_hdrs := hset K_CL (dec_of_N 0) (delivered_hdrs h); m_body := [] |} ], None).
 Proof. exact parse_composed_nobody. Qed.
@@ -61,7 +62,7 @@ Theorem C04_parse_chunked : forall (C : ccallees) (PC : callees) (k : kind), lsp
   no_lf line = true -> c_start PC line = SlOk info -> p11 info = true -> hdrs_ok h = true -> no_list_fields h = true ->
   hget H_TE h = Some TE_CHUNKED -> hget H_CL h = None ->
   (match hget H_CE h with Some ce => c_decode PC (stripv ce) (concat_bytes coded) = DcOk content | None => concat_bytes coded = content end) ->
-  host_ok k info h = true -> c_hdrs PC (p11 info) (delivered_hdrs h) = HOk -> body_allowed k info content = true ->
+  host_ok k info h = true -> c_hdrs PC (p11 info) (delivered_hdrs h) = HOk -> connect_response PC k line = false -> body_allowed k info content = true ->
   parse reference PC k init (line ++ CRLF ++ hcompose C h ++ chunked_frame C [] coded) =
     (init, [ {| m_line := line; m_hdrs := hdel K_TE (hset K_CL (dec_of_N (N.of_nat (List.length content))) (delivered_hdrs h)); m_body := content |} ], None).
 Proof. exact parse_composed_chunked. Qed.
@@ -98,6 +99,7 @@ Theorem C04_response_roundtrip : forall (C : ccallees) (PC : callees), lsplit_cl
   (hmem H_TE (r_hdrs r') = true -> p11 info = true) -> (hmem H_TE (r_hdrs r') = false -> hget H_CE (r_hdrs r') = None) ->
   decodes PC (r_hdrs r') (concat_bytes (encode_pieces C vc (b_codec (r_body r')) (r_sent_pieces r))) content ->
   c_hdrs PC (p11 info) (delivered_hdrs (r_hdrs r')) = HOk ->
+  c_connect PC line = false ->
   N.of_nat (List.length (dec_of_N (N.of_nat (List.length content)))) <= INT_MAX_STR_DIGITS ->
   exists fr, hframing (r_hdrs r') fr /\
     parse reference PC Client init (fst (r_compose C vc r')) =
